@@ -340,6 +340,8 @@ func (p c19) runCollector(t *testing.T, sc *C19Scenario) harness.Outcome {
 					var names []string
 					var vals []int
 					for _, k := range keys {
+						// the HOTKEY handler walks the slice without a lock: it can be preempted between elements
+						simhook.Yield("reader#elem")
 						names = append(names, k.Name)
 						vals = append(vals, int(k.Counter.Value()))
 					}
